@@ -232,6 +232,24 @@ func TestC04(t *testing.T) {
 		}
 		r.SetExhaustive("short last block x every transform x 4 marginal data kinds x jobs {1,3,8}", true)
 	}
+	// Fixed cases: a slow block followed by an almost empty one - the successor's task is done at once and has to wait
+	// seconds for its turn (a wait that gives up after a while would let it write first)
+	for i, en := range []string{"TPAQX", "CM"} {
+		if !r.Mine(1000+i) || r.Failed() {
+			continue
+		}
+		c := C04Case{Cfg: gen.Config{Transform: "NONE", Entropy: en, BlockSize: 2 << 20, Jobs: 1, Checksum: 32, HintClass: "absent"},
+			Data: gen.Recipe{Kind: gen.KText, Len: 2<<20 + 100, Seed: uint64(50 + i)}, Variants: []C04Variant{{Jobs: 2}, {Jobs: 5}}}
+		r.Label("fixed:slow-predecessor")
+		if o := c04Eval(r, c); o.msg != "" {
+			if r.Survey() {
+				r.Violation(t, "purity", c, "%s", o.msg)
+				continue
+			}
+			r.RecordFailure("purity", c, "", o.msg)
+			t.Fatalf("slow predecessor: %s on %s", o.msg, jsonOf(c))
+		}
+	}
 	// forced reverse completion order (controlled scheduler), whole batches only
 	r.Rapid(t, "reverse-order", 150, 4000, func(t *rapid.T) {
 		var c C04Case
